@@ -15,7 +15,10 @@ use std::{
 };
 
 use ringbuf::traits::{Consumer, Observer};
-use tokio::{sync::mpsc::UnboundedReceiver, time::Sleep};
+use tokio::{
+    sync::mpsc::{UnboundedReceiver, WeakUnboundedSender},
+    time::Sleep,
+};
 use tokio_util::sync::CancellationToken;
 use tracing::{Level, debug, debug_span, event, trace, trace_span};
 
@@ -1621,6 +1624,9 @@ pub struct StreamArgs {
 
     state: VirtualSocketState,
     parent_span: Option<tracing::Span>,
+
+    // The socket dispatcher's sender for this stream, if it was created by one.
+    owner: Option<WeakUnboundedSender<UtpMessage>>,
 }
 
 impl StreamArgs {
@@ -1650,6 +1656,7 @@ impl StreamArgs {
             state: VirtualSocketState::Established,
 
             parent_span: None,
+            owner: None,
         }
     }
 
@@ -1671,11 +1678,18 @@ impl StreamArgs {
 
             state: VirtualSocketState::SynReceived,
             parent_span: None,
+            owner: None,
         }
     }
 
     pub fn with_parent_span(mut self, parent_span: tracing::Span) -> Self {
         self.parent_span = Some(parent_span);
+        self
+    }
+
+    /// The dispatcher's end of this stream's channel: identifies the stream when it shuts down.
+    pub(crate) fn with_owner(mut self, owner: WeakUnboundedSender<UtpMessage>) -> Self {
+        self.owner = Some(owner);
         self
     }
 }
@@ -1719,6 +1733,7 @@ impl<T: Transport, E: UtpEnvironment> UtpStreamStarter<T, E> {
             remote_window,
             parent_span,
             state,
+            owner,
         } = args;
 
         let ss = SegmentSizes::new(SegmentSizesConfig {
@@ -1800,7 +1815,7 @@ impl<T: Transport, E: UtpEnvironment> UtpStreamStarter<T, E> {
             },
             parent_span,
             drop_guard: DropGuardSendBeforeDeath::new(
-                ControlRequest::Shutdown((remote, conn_id_recv)),
+                ControlRequest::Shutdown((remote, conn_id_recv), owner),
                 &socket.control_requests,
             ),
             user_rx,
